@@ -283,6 +283,35 @@ pub fn c02_cases(c: &Corpus, quick: bool) -> Vec<IoRun> {
             }
         }
     }
+    // encodings with a chosen discriminant (prescribed table digits of the square-root routine):
+    // every one through every entry shape, intact and with the record split / interrupted
+    for b in c.table_probe() {
+        for as_ in [ElemAs::Element, ElemAs::Affine, ElemAs::Encoding] {
+            for (k, rplan) in [
+                IoPlan::default(),
+                IoPlan { chunks: vec![1], events: vec![] },
+                IoPlan { chunks: vec![31, 1], events: vec![] },
+                IoPlan { chunks: vec![], events: vec![IoEvent { off: 16, ev: IoEv::Interrupt(2) }] },
+            ]
+            .into_iter()
+            .enumerate()
+            {
+                out.push(IoRun {
+                    records: vec![one_record(
+                        Payload::RawElem { bytes: hex(b), as_ },
+                        IoPlan::default(),
+                        rplan,
+                        if k % 2 == 0 { RecvMode::Compressed } else { RecvMode::WithModeValidate },
+                    )],
+                    ..Default::default()
+                });
+            }
+        }
+        out.push(IoRun {
+            datagrams: vec![Datagram { bytes: hex(b) }],
+            ..Default::default()
+        });
+    }
     // every datagram length 0..=80, from a valid and an invalid base
     for l in 0..=80usize {
         for base in [&c.valid[5], &bases[bases.len() - 1]] {
